@@ -200,7 +200,7 @@ func (w *c05World) hook(op *doubles.Op) error {
 		snap := certmagic.VerifMaintainJobsSnapshot()
 		named := false
 		for _, x := range snap.Names {
-			if x == "renew_"+w.names[n] {
+			if strings.HasSuffix(x, w.names[n]) { // "renew_<name>"
 				named = true
 			}
 		}
@@ -227,9 +227,9 @@ func (w *c05World) hook(op *doubles.Op) error {
 // entries that open the reload / renewal queues) until the harness lets it act.
 type c05Core struct{ w *c05World }
 
-func (c c05Core) Enabled(l zapcore.Level) bool        { return l >= zapcore.InfoLevel }
-func (c c05Core) With([]zapcore.Field) zapcore.Core   { return c }
-func (c c05Core) Sync() error                         { return nil }
+func (c c05Core) Enabled(l zapcore.Level) bool      { return l >= zapcore.InfoLevel }
+func (c c05Core) With([]zapcore.Field) zapcore.Core { return c }
+func (c c05Core) Sync() error                       { return nil }
 func (c c05Core) Check(e zapcore.Entry, ce *zapcore.CheckedEntry) *zapcore.CheckedEntry {
 	if c.Enabled(e.Level) {
 		return ce.AddCore(e, c)
@@ -508,15 +508,30 @@ func (w *c05World) enabled(e c05Event) bool {
 		_, ok := w.passes[e.P]
 		return ok
 	case "job":
-		return e.N < w.k && e.K < len(w.jobs[e.N])
+		if e.N >= w.k || e.K >= len(w.jobs[e.N]) {
+			return false
+		}
+		// a job that has not got the lock yet cannot move while another job for the same name
+		// holds it (it would wait inside Storage.Lock, where the harness has no gate)
+		if w.jobs[e.N][e.K].phase == 0 {
+			for _, o := range w.jobs[e.N] {
+				if o.phase == 1 {
+					return false
+				}
+			}
+		}
+		return true
 	case "manage":
 		if e.N >= w.k {
 			return false
 		}
-		if len(w.jobs[e.N]) > 0 {
-			// keep jobs attributable: at most one background job per name at a time, and no
-			// synchronous call that would wait for a lock held by a job
-			return false
+		// keep jobs attributable and calls non-blocking: no synchronous call while a job for
+		// the name is alive (it could wait for the job's lock); an asynchronous one only
+		// besides unnamed obtain jobs (duplicates of those are allowed by the job manager)
+		for _, o := range w.jobs[e.N] {
+			if !e.Async || o.renew {
+				return false
+			}
 		}
 		return true
 	case "ext", "issuer":
@@ -773,14 +788,22 @@ func (w *c05World) observe() (*c05Obs, error) {
 	// cross-check with the job manager's own dedup set: a disagreement shows up as a job code
 	// outside the universe (which neither the model nor the specification accepts)
 	snap := certmagic.VerifMaintainJobsSnapshot()
-	var want []string
+	var want, have []string
 	for _, code := range o.Jobs {
 		if code%6 >= 3 {
-			want = append(want, "renew_"+w.names[code/6])
+			want = append(want, w.names[code/6])
+		}
+	}
+	for _, x := range snap.Names {
+		if i := w.nameInKey(x); i >= 0 {
+			have = append(have, w.names[i])
+		} else {
+			have = append(have, x)
 		}
 	}
 	sort.Strings(want)
-	if strings.Join(want, ",") != strings.Join(snap.Names, ",") {
+	sort.Strings(have)
+	if strings.Join(want, ",") != strings.Join(have, ",") {
 		o.Jobs = append(o.Jobs, 6*w.k+5)
 	}
 	return o, nil
@@ -1173,7 +1196,11 @@ func c05Random(r *rand.Rand, h *c05Hist, n int) c05Chooser {
 				if len(have) == 0 {
 					continue
 				}
-				ev = c05Event{Kind: "job", N: have[r.Intn(len(have))], K: 0}
+				jn := have[r.Intn(len(have))]
+				w.mu.Lock()
+				nj := len(w.jobs[jn])
+				w.mu.Unlock()
+				ev = c05Event{Kind: "job", N: jn, K: r.Intn(nj)}
 			default:
 				ev = c05Event{Kind: "manage", N: name, Async: r.Intn(2) == 0}
 			}
@@ -1193,11 +1220,11 @@ func c05Random(r *rand.Rand, h *c05Hist, n int) c05Chooser {
 
 // c05Initial builds an initial situation. age: 0 none, 1 fresh, 2 due, 3 expired.
 type c05NameInit struct {
-	cached   int  // age of the cached managed certificate (0 = not cached)
-	stored   int  // 0 none, 1 the cached one, 2 another fresh, 3 another due
-	od       bool // name handled by the on-demand config
-	multi    bool // the cached certificate also lists the next name
-	unman    bool // additionally an unmanaged due certificate for the name is cached
+	cached int  // age of the cached managed certificate (0 = not cached)
+	stored int  // 0 none, 1 the cached one, 2 another fresh, 3 another due
+	od     bool // name handled by the on-demand config
+	multi  bool // the cached certificate also lists the next name
+	unman  bool // additionally an unmanaged due certificate for the name is cached
 }
 
 func c05Build(inits []c05NameInit, idue bool) *c05Hist {
@@ -1248,6 +1275,9 @@ func c05Ev(kind string, a ...int) c05Event {
 		e.N, e.Fail = a[0], a[1] == 1
 	case "job":
 		e.N, e.K = a[0], 0
+		if len(a) > 1 {
+			e.K = a[1]
+		}
 	case "manage":
 		e.N, e.Async = a[0], a[1] == 1
 	}
@@ -1359,6 +1389,16 @@ func c05Scenarios() []c05Scenario {
 			}
 		}
 	}
+	// ManageAsync twice for a name with nothing in storage: two unnamed obtain jobs, one Issue
+	for _, fail := range []int{0, 1} {
+		for _, idue := range []bool{false, true} {
+			out = append(out, c05Scenario{"manage-async-twice", c05Build([]c05NameInit{{}, {cached: 1, stored: 1}}, idue),
+				c05Cat(one(c05Ev("issuer", 0, fail)), one(c05Ev("manage", 0, 1)), one(c05Ev("manage", 0, 1)),
+					one(c05Ev("job", 0, 1)), one(c05Ev("job", 0, 0)), one(c05Ev("job", 0, 1)), one(c05Ev("job", 0, 1)),
+					one(c05Ev("issuer", 0, 0)), one(c05Ev("job", 0, 1)), one(c05Ev("job", 0, 1)), one(c05Ev("job", 0, 0)),
+					one(c05Ev("job", 0, 0)), drain(0), pass(0), one(c05Ev("manage", 0, 1)))})
+		}
+	}
 	// an unmanaged certificate covers the name: manage still loads / obtains
 	out = append(out,
 		c05Scenario{"manage-beside-unmanaged", c05Build([]c05NameInit{{unman: true}, {unman: true, stored: 3}}, false),
@@ -1369,8 +1409,8 @@ func c05Scenarios() []c05Scenario {
 	return out
 }
 
-func c05RandomInit(r *rand.Rand) *c05Hist {
-	k := 1 + r.Intn(4)
+func c05RandomInit(r *rand.Rand, maxNames int) *c05Hist {
+	k := 1 + r.Intn(maxNames)
 	inits := make([]c05NameInit, k)
 	for i := range inits {
 		in := &inits[i]
@@ -1431,12 +1471,12 @@ func runC05(tier string, seed int64, outdir string, replay string) error {
 		c05Emit(w, cls, res)
 	}
 	r := rand.New(rand.NewSource(seed))
-	nRand, length := 250, 14
+	nRand, length, maxNames := 400, 16, 4
 	if tier == "thorough" {
-		nRand, length = 2500, 30
+		nRand, length, maxNames = 2500, 30, 5
 	}
 	for i := 0; i < nRand; i++ {
-		h := c05RandomInit(r)
+		h := c05RandomInit(r, maxNames)
 		res, err := runC05History(h, c05Random(r, h, length))
 		if err != nil {
 			return fmt.Errorf("random history %d: %v", i, err)
